@@ -117,7 +117,9 @@ def main(args):
             batch.harness_errors.append(r['reason']); return
         if r['status'] == 'discard':
             batch.discard(r['reason']); return
-        digests.append([i, r['status'], r.get('class')])
+        # the event log of a run: what was generated (image, ops) and everything the run observed (counters per
+        # outcome, fault, cut, read) - not only its verdict
+        digests.append([i, r['status'], r.get('class'), r['hh'], core.digest(r['stats'])[:16]])
         merge_stats(total, r['stats'])
         agg['steps'] += r['n']
         hashes.add(r['hh'])
